@@ -109,12 +109,18 @@ def payeeNode (tx : Transaction) : List TNode :=
 
 def txNodes (tx : Transaction) : List TNode := payeeNode tx ++ tx.postings.flatMap postingNodes
 
+/-- The commodity of a `commodity` / `P` directive: the tree gives the token's extent when the
+    parser recorded its End (quotes included, as for a commodity in a posting); otherwise only
+    where the symbol starts. -/
+def directiveLexeme (c : Commodity) : ARange :=
+  if c.range.stop != Pos.zero then tokenRange c.range else lexeme c.range.start c.symbol
+
 def directiveNodes : Directive → List TNode
   | .account a _ _ _ _ => [⟨.account, a.name, lexeme a.range.start a.name, true⟩]
   | .commodity c _ _ _ _ =>
-    if c.symbol == [] then [] else [⟨.commodity, c.symbol, lexeme c.range.start c.symbol, true⟩]
+    if c.symbol == [] then [] else [⟨.commodity, c.symbol, directiveLexeme c, true⟩]
   | .price _ c p _ =>
-    (if c.symbol == [] then [] else [⟨.commodity, c.symbol, lexeme c.range.start c.symbol, false⟩]) ++
+    (if c.symbol == [] then [] else [⟨.commodity, c.symbol, directiveLexeme c, false⟩]) ++
     commodityNode p.commodity
   | _ => []
 
